@@ -2328,3 +2328,34 @@ impl DtlsTransport {
         Arc::as_ptr(&self.inner.state) as usize
     }
 }
+
+// ---------------------------------------------------------------------------
+// Verification hooks (compiled only with `--cfg rustrtc_verif`; add-only).
+// ---------------------------------------------------------------------------
+#[cfg(rustrtc_verif)]
+impl DtlsTransport {
+    /// H1 support: publish `state` on this transport's state channel without a
+    /// handshake, so that upper layers waiting for `DtlsState::Connected`
+    /// (e.g. the SCTP run loop) start. Used with `verif_null_session()`.
+    pub fn verif_force_state(&self, state: DtlsState) {
+        *self.inner.state.lock() = state.clone();
+        let _ = self.inner.state_tx.send(state);
+    }
+
+    /// A `Connected` state with all-zero keys (never used to protect traffic).
+    pub fn verif_null_session() -> DtlsState {
+        let keys = SessionKeys {
+            client_write_key: vec![0; 16],
+            server_write_key: vec![0; 16],
+            client_write_iv: vec![0; 4],
+            server_write_iv: vec![0; 4],
+            master_secret: vec![0; 48],
+            client_random: vec![0; 32],
+            server_random: vec![0; 32],
+        };
+        DtlsState::Connected(
+            Arc::new(create_session_crypto(keys).expect("16-byte keys")),
+            None,
+        )
+    }
+}
